@@ -164,7 +164,7 @@ _OB = {
     "ob_reset": (["C03", "C05", "C10"], ["raw_bump::RawBump::reset", "raw_bump::NonDummyChunk::deallocate", "raw_bump::NonDummyChunk::layout", "raw_bump::NonDummyChunk::for_each_prev", "raw_bump::RawBump::manually_drop"],
                  "exactly the last (largest) chunk stays, every other grant released exactly once with the same alignment and a size between requested and granted; remaining chunk unlinked and empty; then manually_drop returns the last one: every grant returned exactly once",
                  "K<=3"),
-    "ob_reset_to_start_and_drop": (["C03", "C05", "C10"], ["raw_bump::RawBump::reset_to_start", "raw_bump::RawBump::manually_drop", "raw_bump::NonDummyChunk::for_each_next"],
+    "ob_reset_to_start_and_drop": (["C03", "C05", "C10", "C14"], ["raw_bump::RawBump::reset_to_start", "raw_bump::RawBump::manually_drop", "raw_bump::NonDummyChunk::for_each_next"],
                                    "first chunk current at its start, nothing allocated, nothing released, later chunks untouched, wf; manually_drop from ANY current chunk returns every grant exactly once (fitting layout)",
                                    "K<=3"),
     "ob_stats": (["C10"], ["stats::Stats::*", "stats::Chunk::*", "stats::any::AnyStats::*", "stats::any::AnyChunk::*", "raw_bump::NonDummyChunk::{size,capacity,allocated,remaining,chunk_start,chunk_end,content_start,content_end}"],
@@ -484,7 +484,7 @@ def _stub_h():
           bound="contract stub; [u64;0] / [u32;0] / [u16;0], 2-3 elements", timeout=600)
     for m in _re.finditer(r"^    (stub_mut_(?:rev_)?extend_within_\w+): (true|false), (true|false), (\d);", txt, _re.M):
         name, up, rev, mode = m.groups()
-        k("h_stub::" + name, ["C08", "C07"], ["mut_bump_vec%s::{try_extend_from_within_copy,generic_extend_from_within_copy,generic_reserve}" % ("_rev::MutBumpVecRev" if rev == "true" else "::MutBumpVec")], "B",
+        k("h_stub::" + name, ["C08", "C07", "C15"], ["mut_bump_vec%s::{try_extend_from_within_copy,generic_extend_from_within_copy,generic_reserve}" % ("_rev::MutBumpVecRev" if rev == "true" else "::MutBumpVec")], "B",
           "try_extend_from_within_copy(1..3) on a FULL exclusive vector of 4 elements (has to move to the newer region): same contents as the model (a reversed vector prepends the range as a whole); refused: nothing changes",
           bound="contract stub; element values symbolic", timeout=900, inst="UP=%s mode=%s" % (up, mode))
 
@@ -527,6 +527,10 @@ def _owner_h():
         k("h_owner::" + n_, ["C15"], ["mut_bump_vec::MutBumpVec::{new_in,try_push,map_in_place,into_slice,into_slice_ptr}", "fixed_bump_vec::FixedBumpVec::map_in_place", "bump_scope::BumpScope::allocate_prepared_slice"], "B",
           "MutBumpVec<u32> over the REAL arena from an arbitrary state: 0..2 pushes (the chunk may be full), map_in_place to [u8;3], into_slice - never panics, yields the mapped elements, the position advances by the contents plus the alignment padding of the region and nothing else (the downward instantiation violates this: recorded finding, see known_findings.txt), wf",
           bound="K=1 (48-byte chunk), <= 2 elements", timeout=900, inst=st)
+    for n_, st in (("later_chunk_reuse_up1", "MIN_ALIGN=1 up"), ("later_chunk_reuse_dn8", "MIN_ALIGN=8 down"), ("later_chunk_reuse_dn1", "MIN_ALIGN=1 down")):
+        k("h_owner::" + n_, ["C03", "C01", "C10", "C15"], ["raw_bump::RawBump::{alloc,alloc_in_another_chunk,in_another_chunk}", "raw_bump::RawChunk::reset"], "B",
+          "the current chunk is too full, the base allocator refuses new memory, the request fits an EMPTY later chunk: it is served from that chunk, which is reset first whatever stale position it carries (chunks acquired earlier stay usable; repeating a workload needs no new memory); block inside that chunk, aligned; wf",
+          bound="K=2 (48 / 112-byte chunks), layout size <= 48, align <= 8", timeout=900, inst=st)
     for n_, inst in (("overgrant_dn1_align32_by48", "LogAlloc<Align32>, MIN_ALIGN=1 down, over-grant 48"), ("overgrant_dn8_align64_by80", "LogAlloc<Align64>, MIN_ALIGN=8 down, over-grant 80"), ("overgrant_up4_align32_by16", "LogAlloc<Align32>, MIN_ALIGN=4 up, over-grant 16")):
         _props, _fns, _text, _bound = _OB["ob_overgrant"]
         k("h_owner::" + n_, _props, _fns, "B", _text + " - over-grant a multiple of 16 but not of the over-aligned header alignment", bound="K=1", timeout=900, inst=inst)
